@@ -688,7 +688,7 @@ func openers() []Input {
 		{K: "end", Jump: "period", Votes: []Vote{{0, []Tuple{{0, limit.String()}}}}},
 	}})
 	out = append(out, Input{Params: base, WL: []int{0, 1}, Vals: []string{ten, ten, ten}, Ops: []Op{
-		{K: "end", Jump: "period", Votes: []Vote{{0, []Tuple{{0, mulFrac(limit, 2, 3)}, {1, rate(200)}}}, {1, []Tuple{{0, mulFrac(limit, 2, 3)}, {1, rate(200)}}}, {2, []Tuple{{0, rate(100)}, {1, rate(300)}}}}},
+		{K: "end", Jump: "period", Votes: []Vote{{0, []Tuple{{0, mulFrac(limit, 995, 1000)}, {1, rate(200)}}}, {1, []Tuple{{0, mulFrac(limit, 995, 1000)}, {1, rate(200)}}}, {2, []Tuple{{0, rate(100)}, {1, rate(300)}}}}},
 		{K: "end", Jump: "period", Votes: []Vote{good(0), good(1), bad(2)}},
 	}})
 	return out
